@@ -1,7 +1,7 @@
 (* C19 — effective POMs: managed fill-in, dependency management order, inheritance as a
    recursion over the parent chain, repository order, the children of a node of the dependency
    tree, and stability of an Ok answer under more fuel. *)
-From FB Require Import C19.Model C19.TreeBasics C19.TreeBfs C19.TreeMediation C19.TreeOrder C19.TreeTheorems.
+From FB Require Import C19.Model C19.TheoryTypes C19.TreeBasics C19.TreeBfs C19.TreeMediation C19.TreeOrder C19.TreeTheorems.
 From Coq Require Import Sorting.Sorted Lia.
 
 (* ---------- collision ids ---------- *)
@@ -109,11 +109,11 @@ Proof.
   destruct parent as [par|].
   - destruct (str_eqb_spec (c_type (pd_coord par)) s_pom) as [Et|]; cbn [negb]; [|discriminate].
     destruct (make_dm_own rec (p_dm child)) as [own|] eqn:Eo; [|discriminate]. cbn [bind unwrap_or].
-    destruct (map_res _ _) as [deps|] eqn:Ed; [|discriminate]. intros [= <-]. cbn.
+    destruct (map_res _ _) as [deps|] eqn:Ed; [|discriminate]. intros [= <-]. cbn. rewrite packaging_to_type_identity.
     repeat split; auto. exists own. split; [apply make_dm_own_spec; exact Eo|reflexivity].
   - destruct (p_group child) as [g|]; [|discriminate]. destruct (p_version child) as [v|]; [|discriminate].
     destruct (make_dm_own rec (p_dm child)) as [own|] eqn:Eo; [|discriminate]. cbn [bind unwrap_or].
-    destruct (map_res _ _) as [deps|] eqn:Ed; [|discriminate]. intros [= <-]. cbn.
+    destruct (map_res _ _) as [deps|] eqn:Ed; [|discriminate]. intros [= <-]. cbn. rewrite packaging_to_type_identity.
     repeat split; auto. exists own. split; [apply make_dm_own_spec; exact Eo|reflexivity].
 Qed.
 
